@@ -380,6 +380,9 @@ type ReplayFile struct {
 	Notes     []string         `json:"notes,omitempty"`
 	CedarRev  string           `json:"cedar_rev,omitempty"`
 	Minimised bool             `json:"minimised"`
+	// GoMaxProcs is the processor count of the worker that found the violation (set by
+	// vcheck where a check varies it); the replay runs with the same count.
+	GoMaxProcs *int `json:"gomaxprocs,omitempty"`
 	ShrinkLog string           `json:"shrink_log,omitempty"`
 }
 
